@@ -14,7 +14,7 @@ import shutil
 import tempfile
 
 # checks of the code a property depends on (reader, tokenizer), tried when the property's own check stays quiet
-RELATED = {"C01": ["C04", "C13"], "C11": ["C04"], "C03": ["C13", "C01"], "C15": ["C13", "C12"], "C10": ["C13", "C06"], "C06": ["C13", "C12", "C10"],
+RELATED = {"C01": ["C04", "C13"], "C11": ["C04", "C05"], "C03": ["C13", "C01"], "C15": ["C13", "C12"], "C10": ["C13", "C06"], "C06": ["C13", "C12", "C10"],
            "C14": ["C02", "C05"], "C02": ["C13", "C10", "C06", "C12"], "C20": ["C04"], "C13": ["C14", "C02"], "C09": ["C16", "C12"]}
 
 SCR = tempfile.mkdtemp(prefix="seedrepo-", dir="/var/tmp")
@@ -53,9 +53,11 @@ try:
                         res["also_clauses"] = sorted({l.split("clause=")[-1] for l in v2})[:4]
                         break
         round2 = d[3:] in ("c", "d", "e", "f", "g", "h")
+        round5 = d[3:] in ("g", "h") and pid in ("C07", "C08", "C11", "C13", "C14", "C18", "C19", "C20")
         meta = {"id": d, "breaks_property": pid, "property_title": props[pid]["title"],
                 "patch": os.path.basename(patch), "needs_to_manifest": "see notes.md",
-                "confirmed": ("tools/confirm_seed2.sh: scratch worktree of the repaired tree" if round2 else
+                "confirmed": ("tools/confirm_seed5.sh: scratch worktree of the repaired tree (HEAD 43d17b1)" if round5 else
+                              "tools/confirm_seed2.sh: scratch worktree of the repaired tree" if round2 else
                               "tools/confirm_seed.sh: scratch worktree of the pinned commit") +
                              ": test-suite 150 passed with the change; demo exits 0 without and 1 with it",
                 "ran": "tools/seed_matrix.py: patch applied to a scratch worktree of /repo HEAD, CGSMILES_REPO=<copy> ./check %s --tier quick" % pid,
